@@ -258,6 +258,45 @@ func buildAlphabet() {
 	ids(0, "a", "b", "c")
 	ids(0, "b", "a")
 
+	// identifiers long enough to wrap a narrower length prefix (nothing bounds the length of a party.ID):
+	// under a w-byte prefix [a, "Bob"] and ["A", b'] would be written identically, where
+	// a = "A" | len_w(3) | "M"*(256^w - w) and b' = "M"*(256^w - w) | len_w(3) | "Bob"
+	idsNamed := func(name string, l ...string) {
+		h := sha256.New()
+		for _, s := range l {
+			fmt.Fprintf(h, "%d:", len(s))
+			h.Write([]byte(s))
+		}
+		add(0, "IDSlice", name, fmt.Sprintf("sha256(ids)=%x", h.Sum(nil)), func() interface{} {
+			out := make(party.IDSlice, 0, len(l))
+			for _, s := range l {
+				out = append(out, party.ID(s))
+			}
+			return out
+		})
+	}
+	for _, w := range []int{1, 2} {
+		for _, le := range []bool{false, true} {
+			if w == 1 && le {
+				continue
+			}
+			pre := make([]byte, w)
+			if le {
+				pre[0] = 3
+			} else {
+				pre[w-1] = 3
+			}
+			k := 1<<(8*uint(w)) - w
+			ms := strings.Repeat("M", k)
+			tag := fmt.Sprintf("w%d", w)
+			if le {
+				tag += "le"
+			}
+			idsNamed("[wrap-"+tag+":A|len(3)|M*,Bob]", "A"+string(pre)+ms, "Bob")
+			idsNamed("[wrap-"+tag+":A,M*|len(3)|Bob]", "A", ms+string(pre)+"Bob")
+		}
+	}
+
 	// ---- byte-string wrappers -------------------------------------------------------------
 	wrap := func(typ string, tier int, name string, b []byte, conv func([]byte) interface{}) {
 		add(tier, typ, name, hx(b), func() interface{} {
@@ -423,6 +462,7 @@ func buildAlphabet() {
 		})
 	}
 	bwd(0, "a", nil)
+	bwd(0, "b", nil) // refused like the one above; through New / Fork the two must leave different markers
 	bwd(0, "", []byte{})
 	bwd(2, "", []byte("a"))
 	bwd(2, "a", []byte{})
@@ -438,6 +478,9 @@ func buildAlphabet() {
 	// pointer form, as used by internal/round and internal/ot: same meaning as the value form
 	add(0, "BytesWithDomain", "ptr:a/b", fmt.Sprintf("domain=%s,data=%s", hx([]byte("a")), hx([]byte("b"))), func() interface{} {
 		return &hash.BytesWithDomain{TheDomain: "a", Bytes: []byte("b")}
+	})
+	add(0, "BytesWithDomain", "ptr:a/nil", fmt.Sprintf("domain=%s,data=nil", hx([]byte("a"))), func() interface{} {
+		return &hash.BytesWithDomain{TheDomain: "a", Bytes: nil}
 	})
 	add(0, "BytesWithDomain", "ptr:b/nil", fmt.Sprintf("domain=%s,data=nil", hx([]byte("b"))), func() interface{} {
 		return &hash.BytesWithDomain{TheDomain: "b", Bytes: nil}
